@@ -139,24 +139,36 @@ func Gen(r *vh.Rand, k Knobs) *Scenario {
 	// schedule: every request is invoked once and then finished once
 	if !k.Interleave {
 		for i := 0; i < nr; i++ {
-			s.Sched = append(s.Sched, Step{false, i}, Step{true, i})
+			s.Sched = append(s.Sched, Step{Fin: false, K: i}, Step{Fin: true, K: i})
 		}
 	} else {
 		next := 0
 		var open []int
 		for next < nr || len(open) > 0 {
 			if next < nr && (len(open) == 0 || r.Chance(1, 2)) {
-				s.Sched = append(s.Sched, Step{false, next})
+				s.Sched = append(s.Sched, Step{Fin: false, K: next})
 				open = append(open, next)
 				next++
 			} else {
 				j := r.Intn(len(open))
-				s.Sched = append(s.Sched, Step{true, open[j]})
+				s.Sched = append(s.Sched, Step{Fin: true, K: open[j]})
 				open = append(open[:j], open[j+1:]...)
 			}
 		}
 		if r.Chance(1, 10) && len(s.Sched) > 1 {
 			s.Sched = s.Sched[:len(s.Sched)-1] // leave one request in flight at the end
+		}
+	}
+	// health-check events (a backend flaps) between the request steps, also while requests are in flight
+	if r.Chance(1, 3) {
+		nb := 0
+		for _, sc := range s.Subs {
+			nb += len(sc.Backs)
+		}
+		for n := r.Range(1, 3); n > 0 && nb > 0 && len(s.Sched) < 36; n-- {
+			st := Step{K: r.Intn(nb), Flip: "uuud"[r.Intn(4)]}
+			at := r.Intn(len(s.Sched) + 1)
+			s.Sched = append(s.Sched[:at], append([]Step{st}, s.Sched[at:]...)...)
 		}
 	}
 	return s
